@@ -31,7 +31,8 @@ POINTERS = ["", "/a", "/a/0", "/a/1/a", "/b c/a b", "/b%20c/a%20b", "/zz", "/a/9
 PATCHES = ['[{"op": "add", "path": "/n", "value": 1}]', '[{"op": "remove", "path": "/a/0"}, {"op": "test", "path": "/k", "value": null}]',
            '[{"op": "test", "path": "/k", "value": 1}]', '[{"op": "nope", "path": "/a"}]', '[{"op": "add", "path": "/zz/x", "value": 1}]',
            '{"op": "add", "path": "/n", "value": 1}', '[{"op": "add", "path": "/n"', '[]', '[{"op": "add", "path": "/b%20c/n", "value": 1}]',
-           '[{"op": "replace", "path": "", "value": [1]}]', '[{"path": "/a"}]', '[{"op": "add", "path": "a", "value": 1}]']
+           '[{"op": "replace", "path": "", "value": [1]}]', '[{"path": "/a"}]', '[{"op": "add", "path": "a", "value": 1}]',
+           b'[{"op": "add", "path": "/n", "value": "\xff"}]']
 
 
 class _Files:
